@@ -25,6 +25,11 @@ def cases(draw, tier):
     nl = draw(S.netlists(max_g=24 if big else 12, max_pi=5, max_st=2, need_d=True, clock_pins=True, families=XOR_RICH if draw(st.booleans()) else None))
     kind = draw(st.sampled_from(['wave', 'wave', 'cuda', 'logic2', 'logic4', 'logic8']))
     lanes = draw(st.integers(1, 3))
+    shape = draw(st.integers(0, 9))
+    if shape == 0:
+        nl = S.widen(nl, draw(st.integers(15, 22)), draw(st.integers(0, 999)))     # a level wider than one mock-GPU block (16 ops)
+    elif shape == 1 and kind == 'cuda':
+        lanes = 33                                                                    # more lanes than one block (32)
     n = nl['pi'] + len(nl['st'])
     waves = draw(W.input_waves(n, lanes))
     codes = draw(S.codes(n, lanes, list(range(8))))
